@@ -44,6 +44,12 @@ Definition L_tcp_dial := inline_all lib2 (cl fn_tcp_dial tcp_dial).
 Definition L_ws_dial_scope := inline_all lib1 (cl fn_ws_dial_scope ws_dial_scope).
 Definition L_ws_dial := inline_all (("ws_dial_scope", L_ws_dial_scope) :: lib1) (cl fn_ws_dial ws_dial).
 
+Definition L_quic_dial_scope := cl fn_quic_dial_scope quic_dial_scope.
+Definition L_quic_dial := inline_all [("quic_dial_scope", L_quic_dial_scope)] (cl fn_quic_dial quic_dial).
+Definition L_quic_wrap_scope := cl fn_quic_wrap_scope quic_wrap_scope.
+Definition L_quic_wrap := inline_all [("quic_wrap_scope", L_quic_wrap_scope)] (cl fn_quic_wrap quic_wrap).
+Definition L_quic_accept := inline_all [("quic_wrap", L_quic_wrap)] (cl fn_quic_accept quic_accept).
+
 Definition L_conn_addstream := cl fn_conn_addstream conn_addstream.
 Definition lib3 := [("conn_addstream", L_conn_addstream)].
 Definition L_conn_open_add := inline_all lib3 (cl fn_conn_open_add conn_open_add).
@@ -53,10 +59,10 @@ Definition L_conn_start_accept := cl fn_conn_start_accept conn_start_accept.
 Definition L_conn_start_handle := inline_all lib3 (cl fn_conn_start_handle conn_start_handle).
 Definition L_host_newstream := cl fn_host_newstream host_newstream.
 
-Definition st_conn := mkSt Held Held Absent Absent 0 false None None [].   (* raw conn + scope given *)
-Definition st_raw := mkSt Held Absent Absent Absent 0 false None None [].    (* raw conn given, scope is the caller's *)
-Definition st_stream := mkSt Absent Absent Held Held 0 false None None [].
-Definition st_sstream := mkSt Absent Absent Held Absent 0 false None None []. (* a registered swarm stream (its scope goes with it) *)  (* muxed stream + stream scope given *)
+Definition st_conn := mkSt Held Held Absent Absent 0 false None None [] false.   (* raw conn + scope given *)
+Definition st_raw := mkSt Held Absent Absent Absent 0 false None None [] false.    (* raw conn given, scope is the caller's *)
+Definition st_stream := mkSt Absent Absent Held Held 0 false None None [] false.
+Definition st_sstream := mkSt Absent Absent Held Absent 0 false None None [] false. (* a registered swarm stream (its scope goes with it) *)  (* muxed stream + stream scope given *)
 
 (* an entry = (name, value-returning?, initial resources, flattened paths) *)
 Definition entries : list (string * bool * st * list (list aev)) :=
@@ -72,7 +78,9 @@ Definition entries : list (string * bool * st * list (list aev)) :=
    ("listener.Accept iteration", true, st0, L_listener_accept);
    ("listener.handleIncoming loop iteration", false, st0, L_listener_loop);
    ("BasicHost.newStreamHandler", false, st_sstream, L_host_streamhandler);
-   ("WebsocketTransport.Dial", true, st0, L_ws_dial)].
+   ("WebsocketTransport.Dial", true, st0, L_ws_dial);
+   ("quic transport.Dial", true, st0, L_quic_dial);
+   ("quic listener.Accept iteration", true, st0, L_quic_accept)].
 
 Definition entry_ok (e : string * bool * st * list (list aev)) : bool :=
   let '(_, vr, init, ps) := e in forallb (path_ok vr init) ps.
